@@ -46,12 +46,15 @@ HOSTILE_VALUES = [
 
 
 def budget(tier: str) -> dict:
-    return {"runs": 240, "wall_s": 80} if tier == "quick" else {"runs": 2880, "wall_s": 840}
+    return {"runs": 288, "wall_s": 90} if tier == "quick" else {"runs": 2880, "wall_s": 840}
 
 
 def generate(seed: int, tier: str, index: int) -> dict:
     rng = base.rng_for(seed, "gen")
-    family = ["hostile", "hostile", "hostile", "storage", "inject"][index % 5]
+    # eight slots: four hostile cells, one storage run and three light runs (inject, manage or race, inject) - the
+    # hostile cells cost seconds each, the light families fractions of a second
+    slot = index % 8
+    family = ["hostile", "hostile", "hostile", "hostile", "storage", "inject", "light", "inject"][slot]
     spec = {"property": ID, "seed": seed, "index": index, "tier": tier, "hashseed": index % base.HASHSEEDS,
             "t0_us": simclock.SimClock.parse(rng.choice(mc.T0_CHOICES)), "sched_seed": rng.getrandbits(32),
             "family": family, "actors": []}
@@ -59,7 +62,7 @@ def generate(seed: int, tier: str, index: int) -> dict:
         # the hostile catalogue is a finite enumeration of (slice, world variant, role) = 48 x 5 x 2 cells; nothing
         # in these runs depends on the per-run seed.  Cell c of the sweep is visited in a fixed scattered order
         # (stride 77 is coprime with 480) and VERIF_SEED only rotates where a bounded sweep starts.
-        c = (index // 5) * 3 + index % 5 + 144 * int(os.environ.get("VERIF_SEED", "0") or 0)
+        c = (index // 8) * 4 + slot + 144 * int(os.environ.get("VERIF_SEED", "0") or 0)
         cell = (c * 77) % (N_SLICES * 10)
         spec["slice"] = cell % N_SLICES
         spec["world"] = {"variant": ["full", "noenc", "noaudio", "notiming", "unindexed"][(cell // N_SLICES) % 5]}
@@ -81,19 +84,21 @@ def generate(seed: int, tier: str, index: int) -> dict:
             script.append({"op": "exercise"})
         spec["actors"] = [{"id": "storage", "kind": "storage", "role": "media", "prng": rng.getrandbits(32),
                            "script": script}]
-    elif (index // 5) % 3 == 1:
+    elif family == "light" and (index // 8) % 2 == 0:
         # legitimate management sequences (the C17 workload) under this property's oracle: an authorised, well-formed
         # request never answers 5xx either
         from . import c17
         spec["family"] = "manage"
         spec["world"] = {"variant": "full"}
         spec["actors"] = c17.generate(seed, tier, index * 4)["actors"]
-    elif (index // 5) % 3 == 2:
+    elif family == "light":
         # second stage: legitimate management operations served concurrently (pre-emption inside requests)
         from . import c17
         spec["family"] = "race"
         spec["world"] = {"variant": "full"}
         spec["actors"] = c17.generate_burst(seed, tier, index)["actors"]
+        for a in spec["actors"]:
+            a["check_orders"] = False      # only the responses of the burst are judged here
     else:
         spec["world"] = {"variant": "full"}
         if rng.random() < 0.55:
